@@ -10,7 +10,7 @@ import vlib
 
 LEVEL = "model_checking"
 R1 = """SPECIFICATION Spec
-CONSTANTS MaxInv = %d MaxPoints = %d MaxAttempts = %d MaxOther = %d LenientMatch = %s NotifyEarly = %s NoInitialFlush = %s
+CONSTANTS MaxInv = %d MaxPoints = %d MaxAttempts = %d MaxOther = %d LenientMatch = %s NotifyEarly = %s NoInitialFlush = %s InitialNotifyOnly = %s
 INVARIANTS MonitorQuiet NoStall ChanBound
 CHECK_DEADLOCK FALSE
 """
@@ -24,10 +24,11 @@ CHECK_DEADLOCK FALSE
 def run(ctx):
     quick = ctx.tier == "quick"
     b = (3, 3, 2, 1) if quick else (4, 4, 3, 2)
-    ctx.tlc_check("LambdaExtension", ctx.write_cfg("LambdaExtension.r1.cfg", R1 % (b + ("FALSE", "FALSE", "FALSE"))), label="extension as coded", timeout=3000)
-    for name, flags, want in (("look-alike record types flush", ("TRUE", "FALSE", "FALSE"), "MonitorQuiet"),
-                              ("notify after the first answer", ("FALSE", "TRUE", "FALSE"), "MonitorQuiet"),
-                              ("no initial flush", ("FALSE", "FALSE", "TRUE"), "NoStall")):
+    ctx.tlc_check("LambdaExtension", ctx.write_cfg("LambdaExtension.r1.cfg", R1 % (b + ("FALSE", "FALSE", "FALSE", "FALSE"))), label="extension as coded", timeout=3000)
+    for name, flags, want in (("look-alike record types flush", ("TRUE", "FALSE", "FALSE", "FALSE"), "MonitorQuiet"),
+                              ("notify after the first answer", ("FALSE", "TRUE", "FALSE", "FALSE"), "MonitorQuiet"),
+                              ("no initial flush", ("FALSE", "FALSE", "TRUE", "FALSE"), "NoStall"),
+                              ("initial notification without a flush", ("FALSE", "FALSE", "FALSE", "TRUE"), "MonitorQuiet")):
         bad = ctx.tlc_check("LambdaExtension", ctx.write_cfg("LambdaExtension.dev.cfg", R1 % ((3, 3, 2, 1) + flags)), label=name + " (must fail)", must_pass=False)
         if bad.violated != want:
             raise vlib.MachineryError("vacuity: deviation '%s' not refuted (%s)" % (name, bad.violated))
@@ -60,7 +61,7 @@ def run(ctx):
             keep = ctx.save_replay(v.bad.split("(")[0], {"clause": v.bad, "trace_line": v.line, "history_trace": [json.loads(x) for x in lines[start:v.line]]})
             ctx.violation(v.bad, keep, "LambdaProp clause %s broken at trace line %d: %s" % (v.bad, v.line, lines[v.line - 1][:300]))
             return
-    for need in ("init-error", "upstream-refused", "upstream-dropped", "other-records", "datapoint", "up:failall", "up:fail1", "up:slow"):
+    for need in ("init-datapoints", "init-error", "upstream-refused", "upstream-dropped", "other-records", "datapoint", "up:failall", "up:fail1", "up:slow"):
         if named.get(need, 0) == 0:
             raise vlib.MachineryError("vacuity: %s never reached" % need)
     ctx.cov["named_situations"] = named
